@@ -154,6 +154,7 @@ pub fn run_lock(line: &str) -> String {
     });
     let fs: Arc<dyn FileSystem> = Arc::clone(&gated) as Arc<dyn FileSystem>;
     let mut destroyer: Option<std::thread::JoinHandle<bool>> = None;
+    let mut dphase: u8 = 0; // gate the destroyer is parked at (0 = no destroyer running)
     let mut handles: HashMap<String, DB> = HashMap::new();
     let mut out: Vec<String> = vec![];
     for step in &toks[1..] {
@@ -325,27 +326,34 @@ pub fn run_lock(line: &str) -> String {
                         .unwrap();
                     if gated.wait_parked(1, &|| th.is_finished()) {
                         destroyer = Some(th);
+                        dphase = 1;
                         out.push("parked".to_string());
                     } else {
                         out.push(if th.join().unwrap_or(false) { "ok".to_string() } else { "err".to_string() });
                     }
                 }
             }
-            b'F' => match destroyer.take() {
-                None => out.push("none".to_string()),
-                Some(th) => {
+            b'F' => {
+                if dphase != 1 {
+                    // only a destroyer parked before the LOCK removal can take this step
+                    out.push("none".to_string());
+                } else {
+                    let th = destroyer.take().unwrap();
                     gated.release(1);
                     if gated.wait_parked(2, &|| th.is_finished()) {
                         destroyer = Some(th);
+                        dphase = 2;
                         out.push("parked".to_string());
                     } else {
+                        dphase = 0;
                         out.push(if th.join().unwrap_or(false) { "ok".to_string() } else { "err".to_string() });
                     }
                 }
-            },
+            }
             b'H' => match destroyer.take() {
                 None => out.push("none".to_string()),
                 Some(th) => {
+                    dphase = 0;
                     gated.release(2);
                     out.push(if th.join().unwrap_or(false) { "ok".to_string() } else { "err".to_string() });
                 }
